@@ -322,7 +322,7 @@ def main(argv: list[str] | None = None) -> int:
         "violations": len(violations),
     }
     ev_dir = OUT / "evidence"
-    ev_dir.mkdir(exist_ok=True)
+    ev_dir.mkdir(parents=True, exist_ok=True)
     (ev_dir / f"{pid}.json").write_text(json.dumps(evidence, indent=1, sort_keys=False, default=str))
 
     print(f"[{pid}] tier={a.tier} seed={seed} evaluations={evaluations} distinct_nontrivial={len(nontrivial)} "
